@@ -61,10 +61,8 @@ def handle (j : Json) : Json :=
       if jhas j "obs" then
         let o := jobj j "obs"
         let w' := parseWorld o
-        -- the declarative clean set for the effect monitor: closure computed by `closeN`, not by the traversal
-        let full :=
-          if withDeps r then closeN (depsOf tbl) tbl.length base
-          else base ++ base.flatMap (fun n => (taskDepOf tbl n).filter (fun d => isSubOf tbl d n))
+        -- the declarative clean set for the effect monitor: computed by `closeN`, not by the traversal
+        let full := declSet tbl r base
         [("monitor", Json.mkObj [("order", Json.bool (monitorOrder tbl r base w (jnats o "order"))),
                                  ("effects", Json.bool (monitorEffects tbl r full w w'))])]
       else []
